@@ -16,6 +16,7 @@ func checkC19(w *World, r *Report) {
 	ro := w.Roles()
 	r.Undecided = []string{"the core equality 'inflation x supply x dt / year = amount minted over dt' is arithmetic and is not decided; only the zero cases, the guard of the division and the origin of the operands are"}
 	r.Rule("C19.zero", "P7", "reported inflation is zero when the period start is after now (Minter.CalculateInflation), for the no-minting configuration (constant), and for every configuration whose end has passed (now after end => zero; now equal to end => either)", 4)
+	r.Rule("C19.start", "P6,P7", "= C02.start for the inflation query: the rate is computed for the current period (result #0 of the shared selection) from the start its predecessor's end gives (params.StartTime without predecessor) - the same start the emission uses", 2)
 	r.Rule("C19.guard", "P5", "the division by the supply is dominated by the false edge of supply <= 0, whose true edge returns zero", 2)
 	r.Rule("C19.operands", "P6,P8", "the divisor originates from bank.GetSupply(params.MintDenom), the period from the selection over the stored state, the time from the block header; the constant year evaluates to 365 x 24 h; the query returns this value", 5)
 	if !ro.checkFloors(r) {
@@ -27,6 +28,8 @@ func checkC19(w *World, r *Report) {
 		r.Unk("infra.anchor", "Minter.CalculateInflation / Keeper.GetCurrentInflation", "", "anchor not found")
 		return
 	}
+	// ---------- C19.start ----------
+	periodStartRule(w, r, "C19.start", []*ssa.Function{gci})
 	// ---------- C19.zero: Minter.CalculateInflation ----------
 	{
 		startP, nowP := paramOfType(mci, tTime, 0), paramOfType(mci, tTime, 1)
